@@ -171,12 +171,63 @@ def run(ck):
     ok = any(isinstance(n, ast.Assign) and norm(n.targets[0]) == "self.blocks[irblock.loc_key]" for n in walk_body(fn))
     ck.ob("R3", "IRCFG.add_irblock:register", ok, m.where(fn), "the block is not registered under its location")
     fn = m.func("IRCFG._extract_dst")
-    ok = False
-    for n in walk_body(fn):
-        if isinstance(n, ast.If) and "is_cond()" in norm(n.test):
-            t = norm(ast.Module(body=n.body, type_ignores=[]))
-            ok = "todo.add(dst.src1)" in t and "todo.add(dst.src2)" in t
-    ck.ob("R3", "IRCFG._extract_dst:both-arms", ok, m.where(fn), "a conditional destination is not split into both arms")
+    _extract_dst_rules(ck, m, fn)
+
+
+def _extract_dst_rules(ck, m, fn):
+    """Worklist step of the destination extraction, stated on the paths of the loop body (sa/symval) and on the elements each path adds
+    to the three collections, whatever the order of the tests and the spelling of the additions (add / update / display):
+      a popped value known to be a conditional puts BOTH its alternatives back on the worklist;
+      a popped value known to be an identifier (and not a conditional) goes to the returned set;
+      on every other path the value is kept as final in `done` (locations, integers, memory, anything else) - never dropped."""
+    from sa import symval
+    from sa.astutil import added_elements
+    ps = [a.arg for a in fn.args.args]
+    todo, done = ps[1], ps[2]
+    loops = [n for n in walk_body(fn) if isinstance(n, ast.While) and norm(n.test) in (todo, "len(%s) > 0" % todo, "len(%s)" % todo, "0 < len(%s)" % todo)]
+    ck.need(loops, "IRCFG._extract_dst: worklist loop `while %s` not found" % todo)
+    lp = loops[0]
+    pops = [st for st in lp.body if isinstance(st, ast.Assign) and isinstance(st.targets[0], ast.Name) and isinstance(st.value, ast.Call)
+            and norm(st.value.func) == "%s.pop" % todo]
+    ck.need(pops, "IRCFG._extract_dst: `%s.pop()` not found" % todo)
+    v = pops[0].targets[0].id
+    rets = [n for n in walk_body(fn) if isinstance(n, ast.Return) and isinstance(n.value, ast.Name)]
+    ck.need(rets, "IRCFG._extract_dst: returned collection not found")
+    out = rets[-1].value.id
+    rest = lp.body[lp.body.index(pops[0]) + 1:]
+    both = ids = final = True
+    n_paths = 0
+    detail = []
+    for pth in symval.paths(rest, limit=64):
+        n_paths += 1
+        known = {}
+        for t, b in pth.conds:
+            for c in ([t] if not (isinstance(t, ast.BoolOp) and isinstance(t.op, ast.Or) and not b) else t.values):
+                if isinstance(c, ast.Call) and isinstance(c.func, ast.Attribute) and norm(c.func.value) == v and c.func.attr.startswith("is_") and not c.args:
+                    known[c.func.attr] = b
+        adds = {}
+        for e in pth.effects:
+            ae = added_elements(e)
+            if ae is not None:
+                adds.setdefault(ae[0], set()).update(norm(x) for x in ae[1])
+        desc = "path [%s] adds %s" % (", ".join("%s=%s" % kv for kv in sorted(known.items())), dict((k, sorted(x)) for k, x in adds.items()))
+        if known.get("is_cond") is True:
+            if not set(["%s.src1" % v, "%s.src2" % v]) <= adds.get(todo, set()):
+                both = False
+                detail.append(desc)
+        elif known.get("is_id") is True:
+            if v not in adds.get(out, set()):
+                ids = False
+                detail.append(desc)
+        else:
+            if v not in adds.get(done, set()):
+                final = False
+                detail.append(desc)
+    ck.need(n_paths >= 3, "IRCFG._extract_dst: fewer than three classification paths found (%d)" % n_paths)
+    ck.ob("R3", "IRCFG._extract_dst:both-arms", both, m.where(fn), "a conditional destination is not split into both arms: %s" % "; ".join(detail[:2]))
+    ck.ob("R3", "IRCFG._extract_dst:ids-tracked", ids, m.where(fn), "an identifier destination is not handed back for tracking: %s" % "; ".join(detail[:2]))
+    ck.ob("R3", "IRCFG._extract_dst:final-kept", final, m.where(fn),
+          "a final destination (location, integer, memory, other) is dropped instead of being kept in `%s`: %s" % (done, "; ".join(detail[:2])))
 
 
 def _complete_dst_rule(ck, m, fn):
